@@ -14,10 +14,6 @@ open IbcVerif.Callbacks
 /-- the callback errors, panics or runs out of gas (on a meter limited to `exec`) -/
 def Failed (c : Contract) (exec : Nat) : Prop := c.gas > exec ∨ c.out ≠ .ok
 
-/-- the contract lets the meter's ErrorOutOfGas panic propagate, or turns it into an error — it
-    does not report success after having been cut off by the gas meter -/
-def NoSuccessPastLimit (c : Contract) : Prop := c.catchOog ≠ some .ok
-
 /-- `computeExecAndCommitGasLimit`: commit = user limit, replaced by the chain maximum when 0 or above
     it; exec = min(remaining, commit). -/
 theorem gas_limits (user remaining max : Nat) :
@@ -101,15 +97,16 @@ theorem source_cb_never_blocks (t : CbType) (user remaining max : Nat) (c : Cont
       | exact absurd rfl ht
       | simp [pcTable, runTable, PcResult.isPanic]
 
-/-- … and the failed callback's own state changes are discarded — for contracts that do not report
-    success after being cut off by the meter (`NoSuccessPastLimit`). -/
-theorem source_cb_discards_partial (t : CbType) (ht : t ≠ .send) (user remaining max : Nat) (c : Contract)
-    (hc : NoSuccessPastLimit c) (hf : Failed c (gasLimits user remaining max).1) :
-    (onAckOrTimeout t false (.valid user) remaining max c).cbWrote = false := by
+/-- … and the failed callback's own state changes are discarded — for EVERY contract, including one
+    that swallows its own out-of-gas panic and returns nil (before fix 7bc25b2 that contract kept
+    its writes: `writeFn()` ran before the past-limit check). -/
+theorem source_cb_discards (t : CbType) (user remaining max : Nat) (c : Contract)
+    (hf : Failed c (gasLimits user remaining max).1) :
+    (onAckOrTimeout t false (.valid user) remaining max c).cbWrote = false ∧
+    (onWriteAck false (.valid user) remaining max c).cbWrote = false := by
   obtain ⟨gas, out, co⟩ := c
-  unfold NoSuccessPastLimit at hc
   unfold Failed at hf
-  simp only [onAckOrTimeout, withCb, processCallback_eq, run_eq, Bool.false_eq_true, if_false] at hf hc ⊢
+  simp only [onAckOrTimeout, onWriteAck, withCb, processCallback_eq, run_eq, Bool.false_eq_true, if_false] at hf ⊢
   revert hf
   generalize (gasLimits user remaining max).1 = e
   generalize (gasLimits user remaining max).2 = cm
@@ -121,21 +118,27 @@ theorem source_cb_discards_partial (t : CbType) (ht : t ≠ .send) (user remaini
   cases past <;> cases retry <;> cases out <;> rcases co with _ | (_ | _) <;> cases t <;>
     simp_all [pcTable, runTable, PcResult.isPanic]
 
-/-- the statement without the hypothesis on the contract -/
-def source_cb_discards_full : Prop :=
-  ∀ (t : CbType), t ≠ .send → ∀ (user remaining max : Nat) (c : Contract),
-    Failed c (gasLimits user remaining max).1 →
-    (onAckOrTimeout t false (.valid user) remaining max c).result = .ok →
-    (onAckOrTimeout t false (.valid user) remaining max c).cbWrote = false
+/-- Conversely a callback's writes are kept exactly when it succeeded within its gas limit. -/
+theorem cb_writes_kept_iff_success (t : CbType) (exec commit : Nat) (c : Contract) :
+    (processCallback t exec commit c).wrote = true ↔ (c.gas ≤ exec ∧ c.out = .ok) := by
+  obtain ⟨gas, out, co⟩ := c
+  simp only [processCallback_eq, run_eq]
+  obtain ⟨past, hpd, hpp⟩ := bool_of_dec (gas > exec)
+  obtain ⟨retry, hrd, hrp⟩ := bool_of_dec (exec < commit)
+  rw [hpd, hrd]
+  have hle : gas ≤ exec ↔ past = false := by
+    rw [← Nat.not_lt]
+    cases past <;> simp_all
+  simp only [hle]
+  cases past <;> cases retry <;> cases out <;> rcases co with _ | (_ | _) <;> cases t <;>
+    simp [pcTable, runTable]
 
-/-- It is false of the code: a contract keeper that swallows its own out-of-gas panic and returns nil
-    (exec = commit, so no retry) makes `ProcessCallback` report ErrCallbackOutOfGas *after* `writeFn()`
-    already ran.  Witness: ack callback, user limit 1000, plenty of remaining gas, the contract
-    consumes 1001 and returns nil.  Replayed on the real middleware by the harness monitor. -/
-theorem source_cb_discards_full_false : ¬ source_cb_discards_full := by
-  intro h
-  have := h .ack (by decide) 1000 500000 1000000 ⟨1001, .ok, some .ok⟩ (Or.inl (by decide)) (by decide)
-  revert this
+/-- Regression of the finding fixed by /repo 7bc25b2: ack callback, user limit 1000, the contract writes,
+    consumes 1001, swallows the out-of-gas panic and returns nil.  The handler still returns nil with
+    ErrCallbackOutOfGas logged — and the contract's writes are now discarded. -/
+theorem swallowed_oog_witness_now_discarded :
+    onAckOrTimeout .ack false (.valid 1000) 500000 1000000 ⟨1001, .ok, some .ok⟩ =
+      ⟨.ok, true, false, 1000, some .errOog⟩ := by
   decide
 
 /-- Out of gas with less gas than the committed limit aborts the transaction at every entry point,
